@@ -2,7 +2,7 @@
 //! default stack size, then clones / queries / drops, acknowledging every stage with a line.
 //! A stack overflow kills the process with a signal, which is what the parent looks for.
 //!
-//! usage: c20_child <seed> <turns> <policy 0|1|2> <order 0..>   (policy 2 = out and back)
+//! usage: c20_child <seed> <turns> <policy 0|1|2> <order 0..>   (policy 2 = out and back, 3 = shuffle through rule-only actions)
 use arimaa_engine_step::{Action, GameState, Piece};
 use std::io::Write;
 
@@ -218,8 +218,46 @@ fn play_out_and_back(seed: u64, turns: usize) -> (GameState, usize, Option<Actio
     (g, turns_done, if k == 0 { first } else { None })
 }
 
+/// Policy 3, "shuffle": an officer of each side steps forth and back with one-step turns, taken from the rule-only
+/// action list (`valid_actions_no_rep`, which the crate offers for building transposition tables and
+/// which ignores repetitions), so the same four positions recur for the whole length of the game.
+fn play_shuffle(turns: usize) -> (GameState, usize) {
+    let mut g: GameState = START.parse().expect("start position");
+    let cycle = ["e2n", "e7s", "e3s", "e6n"];
+    let mut done = 0usize;
+    while done < turns {
+        let a: Action = cycle[done % 4].parse().expect("action");
+        // membership in the rule-only list is a constant-time question; asking it every time would still
+        // make the game quadratic through the lists' allocation, so it is asked on a sample
+        if done % 97 == 0 && !g.valid_actions_no_rep().contains(&a) {
+            break;
+        }
+        g = g.take_action(&a);
+        if done % 97 == 0 && !g.valid_actions_no_rep().contains(&Action::Pass) {
+            break;
+        }
+        g = g.take_action(&Action::Pass);
+        done += 1;
+        if done % 50000 == 0 {
+            say(&format!("PROGRESS shuffle turns={} history={}", done, g.unwrap_play_phase().hash_history().len()));
+        }
+    }
+    (g, done)
+}
+
 fn body(seed: u64, turns: usize, policy: u64, order: u64) {
-    let (g, done) = if policy == 2 {
+    let (g, done) = if policy == 3 {
+        let (g, done) = play_shuffle(turns);
+        // in the middle of the next turn the repetition lookups meet a position that fills a quarter of the history
+        let next: Action = ["e2n", "e7s", "e3s", "e6n"][done % 4].parse().expect("action");
+        if g.valid_actions_no_rep().contains(&next) {
+            let a = next;
+            let n = g.take_action(&a);
+            let acc = n.valid_actions().len() + n.can_pass(true) as usize + n.is_terminal().is_some() as usize + n.has_move(n.piece_board()).is_some() as usize;
+            say(&format!("STAGE queries_in_the_turn_after_the_shuffle {}", acc));
+        }
+        (g, done)
+    } else if policy == 2 {
         let (g, done, first) = play_out_and_back(seed, turns);
         // the whole way back was possible: gold makes its very first step again, whose result (with a
         // pass) occurred once, as far back as the game is long
